@@ -127,6 +127,20 @@ fn apply_edit(f: &mut Font, tr: &mut Track, op: &str) {
                 l.lib.remove("k");
             }
         }
+        "gp" | "lp" => {
+            // pairs of names that map to the same file name once illegal characters are replaced (and, for the sigma and
+            // titlecase pairs, once case is ignored the way the clash test does); inserted in both orders
+            let pairs = [("a*", "a_"), ("\u{c9}*", "\u{c9}_"), (".a\u{3a3}", "_a\u{3a3}"), ("a\u{3a3}*", "a\u{3a3}_"), ("\u{1c5}", "\u{1c6}"), ("A*", "a_")];
+            let (a, b) = pairs[p[1].parse::<usize>().unwrap_or(0) % pairs.len()];
+            let (first, second) = if p[2] == "1" { (b, a) } else { (a, b) };
+            for n in [first, second] {
+                if p[0] == "gp" {
+                    f.default_layer_mut().insert_glyph(Glyph::new(n));
+                } else {
+                    let _ = f.layers.new_layer(n);
+                }
+            }
+        }
         "kp" => {
             // add a pair, then delete it the obvious way: the first glyph stays behind with no seconds
             let a = norad::Name::new("A").unwrap();
